@@ -15,3 +15,6 @@ func ZvNewSample(ts time.Time, tags string, id uint64, fields [10]int) *Sample {
 func ZvAppendPhout(s *Sample, id bool) []byte { return appendPhout(s, nil, id) }
 
 func ZvErrno(s *Sample) int { return s.get(keyErrno) }
+
+// ZvRelease gives a sample back to the pool, as the phout aggregator does after writing its line.
+func ZvRelease(s *Sample) { releaseSample(s) }
